@@ -111,6 +111,34 @@ Theorem C15_legacy_value_error_refuted :
     from_bytes_legacy urlnorm [5; 36; 22; 47; 47; 91]%N = Raise ValueError.
 Proof. exact legacy_value_error_escapes. Qed.
 
+(** AdvertisingDevicesDB.on_device_found, for ALL sequences of advertisements (ADV_IND,
+    ADV_NONCONN_IND, SCAN_RSP, other PDUs; any addresses, any record bytes, any filter /
+    updates setting) from ANY database state: no call raises ("scanning survives any
+    advertisement on the air"). Induction over the sequence on top of C15_parser_total. *)
+Theorem C15_scan_never_raises :
+  forall (urlnorm : text -> url_result) (filter : option N) (updates : bool)
+         (evs : list event) (db : list device),
+    Forall (fun ev => wf_bytes (ev_data ev) = true) evs ->
+    exists r, scan urlnorm filter updates db evs = Ok r.
+Proof. exact scan_never_raises. Qed.
+
+(** ... and what the database holds for an address is what was parsed: the advertising
+    records are the parse of an ADV_IND / ADV_NONCONN_IND of that address in the sequence,
+    the scan-response records (present iff got_scan_rsp) the parse of a SCAN_RSP of that
+    address. *)
+Theorem C15_scan_stored_parsed :
+  forall (urlnorm : text -> url_result) (filter : option N) (updates : bool)
+         (evs : list event) (r : list device * list (list N)),
+    scan urlnorm filter updates [] evs = Ok r -> Forall (dev_ok urlnorm evs) (fst r).
+Proof. exact scan_stored_parsed. Qed.
+
+(** Malformed records (AdvDataError / overflow) leave the database untouched. *)
+Theorem C15_scan_malformed_ignored :
+  forall (urlnorm : text -> url_result) (filter : option N) (updates : bool)
+         (db : list device) (ev : event),
+    parse_adv urlnorm (ev_data ev) = Ok None -> handle urlnorm filter updates db ev = Ok (db, []).
+Proof. exact malformed_ignored. Qed.
+
 (** Non-vacuity: a concrete list over eight classes (flags, 16-bit UUID list, name, URI,
     appearance, LE role, TX power, LE features) is well formed, fits, and round-trips. *)
 Example C15_nonvacuous :
